@@ -81,26 +81,49 @@ RefRelations(doc) ==
 (* A chain = the enclosing nodes of an occurrence of an atom, root first,    *)
 (* each [p |-> path, kind, sarg, w |-> "children" | "largs"].                *)
 IsStrC(c) == "s" \in DOMAIN c
-RECURSIVE Occ(_, _, _)
-OccIn(n, path, a, lst, where, tag) ==
-  LET me == [p |-> path, kind |-> n.kind, sarg |-> n.sarg, w |-> where] IN
-  UNION { IF IsStrC(lst[i])
-          THEN (IF \E j \in 1..Len(lst[i].s) : lst[i].s[j] = a THEN { <<me>> } ELSE {})
-          ELSE { <<me>> \o c : c \in Occ(lst[i], path \o <<tag, i>>, a) }
-          : i \in 1..Len(lst) }
-Occ(n, path, a) ==
-  OccIn(n, path, a, n.children, "children", 0)
-  \cup UNION { OccIn(n, path, a, n.largs[k], "largs", k) : k \in 1..Len(n.largs) }
+HasAtom(s, a) == \E j \in 1..Len(s) : s[j] = a
+\* first occurrence of atom a below node n: the chain, or <<>>.  Paths are
+\* sequences of child positions (position i of largs[k] is written 1000*k + i).
+RECURSIVE FindN(_, _, _)
+RECURSIVE FindL(_, _, _, _, _, _, _)
+FindL(n, path, a, lst, where, off, i) ==
+  IF i > Len(lst) THEN <<>>
+  ELSE LET me == [p |-> path, kind |-> n.kind, sarg |-> n.sarg, w |-> where]
+           c == lst[i] IN
+       IF IsStrC(c)
+       THEN (IF HasAtom(c.s, a) THEN <<me>> ELSE FindL(n, path, a, lst, where, off, i + 1))
+       ELSE LET r == FindN(c, Append(path, off + i), a) IN
+            IF r # <<>> THEN <<me>> \o r ELSE FindL(n, path, a, lst, where, off, i + 1)
+RECURSIVE FindA(_, _, _, _)
+FindA(n, path, a, k) ==
+  IF k > Len(n.largs) THEN <<>>
+  ELSE LET r == FindL(n, path, a, n.largs[k], "largs", 1000 * k, 1) IN
+       IF r # <<>> THEN r ELSE FindA(n, path, a, k + 1)
+FindN(n, path, a) ==
+  LET r == FindL(n, path, a, n.children, "children", 0, 1) IN
+  IF r # <<>> THEN r ELSE FindA(n, path, a, 1)
 
+\* number of strings below n that contain atom a
+RECURSIVE CntN(_, _)
+RECURSIVE CntL(_, _, _)
+CntL(lst, a, i) ==
+  IF i > Len(lst) THEN 0
+  ELSE (IF IsStrC(lst[i]) THEN (IF HasAtom(lst[i].s, a) THEN 1 ELSE 0) ELSE CntN(lst[i], a))
+       + CntL(lst, a, i + 1)
+RECURSIVE CntA(_, _, _)
+CntA(n, a, k) == IF k > Len(n.largs) THEN 0 ELSE CntL(n.largs[k], a, 1) + CntA(n, a, k + 1)
+CntN(n, a) == CntL(n.children, a, 1) + CntA(n, a, 1)
+
+\* number of nodes of the given kinds in the tree
 RECURSIVE CountKinds(_, _)
-CountIn(lst, kinds) ==
-  LET F[i \in 0..Len(lst)] ==
-        IF i = 0 THEN 0
-        ELSE F[i - 1] + (IF IsStrC(lst[i]) THEN 0 ELSE CountKinds(lst[i], kinds))
-  IN F[Len(lst)]
+RECURSIVE CountIn(_, _, _)
+CountIn(lst, kinds, i) ==
+  IF i > Len(lst) THEN 0
+  ELSE (IF IsStrC(lst[i]) THEN 0 ELSE CountKinds(lst[i], kinds)) + CountIn(lst, kinds, i + 1)
+RECURSIVE CountArgs(_, _, _)
+CountArgs(n, kinds, k) == IF k > Len(n.largs) THEN 0 ELSE CountIn(n.largs[k], kinds, 1) + CountArgs(n, kinds, k + 1)
 CountKinds(n, kinds) ==
-  LET G[k \in 0..Len(n.largs)] == IF k = 0 THEN 0 ELSE G[k - 1] + CountIn(n.largs[k], kinds)
-  IN (IF n.kind \in kinds THEN 1 ELSE 0) + CountIn(n.children, kinds) + G[Len(n.largs)]
+  (IF n.kind \in kinds THEN 1 ELSE 0) + CountIn(n.children, kinds, 1) + CountArgs(n, kinds, 1)
 
 LevelKinds == {"LEVEL1", "LEVEL2", "LEVEL3", "LEVEL4", "LEVEL5", "LEVEL6"}
 \* index (from the end) of the nearest entry of the given kinds in chain[1..upto]; 0 = none
@@ -110,35 +133,40 @@ Nearest(chain, upto, kinds) ==
   ELSE IF chain[upto].kind \in kinds THEN upto
   ELSE Nearest(chain, upto - 1, kinds)
 
-TreeRelations(tree, doc, W(_)) ==
+\* chs[i] = the chain of line i's marker word (<<>> if the word does not occur exactly once).
+\* (Chains are passed as an argument so that TLC evaluates the tree walks once.)
+RelationsOfChains(doc, chs, nsec, nitem, nlist) ==
   LET n == Len(doc)
-      occ == [i \in 1..n |-> IF doc[i].t \in {"H", "L", "P"} THEN Occ(tree, <<>>, W(i)) ELSE {}]
-      one(i) == Cardinality(occ[i]) = 1
-      ch(i) == CHOOSE c \in occ[i] : TRUE
-      \* the line whose own node sits at this path (0 = none)
-      LineOfPath(p, t) ==
-        MaxOr0({ j \in 1..n : doc[j].t = t /\ one(j) /\ ch(j)[Len(ch(j))].p = p })
+      one(i) == chs[i] # <<>>
+      ownp(i) == IF one(i) THEN chs[i][Len(chs[i])].p ELSE <<98>>
+      upp(i) == IF one(i) /\ Len(chs[i]) >= 2 THEN chs[i][Len(chs[i]) - 1].p ELSE <<99>>
+      \* the line of type t whose own node sits at this path (0 = none)
+      LineOfPath(p, t) == MaxOr0({ j \in 1..n : doc[j].t = t /\ ownp(j) = p })
+      worded(i) == doc[i].t \in {"H", "L", "P"}
       own(i) == IF ~one(i) THEN [k |-> "BAD", w |-> "-", m |-> <<>>]
-                ELSE LET e == ch(i)[Len(ch(i))] IN
+                ELSE LET e == chs[i][Len(chs[i])] IN
                      IF doc[i].t = "P" THEN NoOwn ELSE [k |-> e.kind, w |-> e.w, m |-> e.sarg]
       sec(i) == IF ~one(i) THEN 0
-                ELSE LET c == ch(i)
+                ELSE LET c == chs[i]
                          upto == IF doc[i].t = "H" THEN Len(c) - 1 ELSE Len(c)
                          x == Nearest(c, upto, LevelKinds)
                      IN IF x = 0 THEN 0 ELSE LineOfPath(c[x].p, "H")
       item(i) == IF ~one(i) \/ doc[i].t # "L" THEN 0
-                 ELSE LET c == ch(i)
+                 ELSE LET c == chs[i]
                           x == Nearest(c, Len(c) - 1, {"LIST_ITEM"})
                       IN IF x = 0 THEN 0 ELSE LineOfPath(c[x].p, "L")
-      \* path of the node directly above the own node
-      up(i) == IF one(i) /\ Len(ch(i)) >= 2 THEN ch(i)[Len(ch(i)) - 1].p ELSE <<99>>
       lst(i) == IF ~one(i) \/ doc[i].t # "L" THEN 0
-                ELSE Min({ j \in 1..n : doc[j].t = "L" /\ one(j) /\ up(j) = up(i) })
-  IN [ own |-> [i \in 1..n |-> IF doc[i].t \in {"H", "L", "P"} THEN own(i) ELSE NoOwn],
-       sec |-> [i \in 1..n |-> IF doc[i].t \in {"H", "L", "P"} THEN sec(i) ELSE 0],
+                ELSE Min({ j \in 1..n : doc[j].t = "L" /\ upp(j) = upp(i) })
+  IN [ own |-> [i \in 1..n |-> IF worded(i) THEN own(i) ELSE NoOwn],
+       sec |-> [i \in 1..n |-> IF worded(i) THEN sec(i) ELSE 0],
        item |-> [i \in 1..n |-> item(i)],
        lst |-> [i \in 1..n |-> lst(i)],
-       nsec |-> CountKinds(tree, LevelKinds),
-       nitem |-> CountKinds(tree, {"LIST_ITEM"}),
-       nlist |-> CountKinds(tree, {"LIST"}) ]
+       nsec |-> nsec, nitem |-> nitem, nlist |-> nlist ]
+
+\* (bound variables of a set constructor are evaluated eagerly by TLC: the tree is walked once)
+TreeRelations(tree, doc, W(_)) ==
+  CHOOSE r \in { RelationsOfChains(doc, c, CountKinds(t, LevelKinds), CountKinds(t, {"LIST_ITEM"}), CountKinds(t, {"LIST"})) :
+                   c \in { [i \in 1..Len(doc) |-> IF doc[i].t \in {"H", "L", "P"} /\ CntN(t, W(i)) = 1
+                                                  THEN FindN(t, <<>>, W(i)) ELSE <<>>] : t \in {tree} },
+                   t \in {tree} } : TRUE
 =============================================================================
